@@ -18,6 +18,8 @@ Lemma src_send_second_cases : send_second_cases = (true, true, true, true).
 Proof. reflexivity. Qed.
 Lemma src_reader_retry_stops : reader_retry_stops_when_done = true.
 Proof. reflexivity. Qed.
+Lemma src_owner_queues_writes : owner_writes_inline = false /\ failed_arm_guarded = true.
+Proof. split; reflexivity. Qed.
 Lemma src_chan_caps : response_chan_cap = 1 /\ err_chan_cap = 1.
 Proof. split; reflexivity. Qed.
 Lemma src_reply_types :
@@ -59,53 +61,101 @@ Proof. intros. rewrite run_snoc. reflexivity. Qed.
 
 (* ---------------------------------------------------------------- one step, by cases *)
 
-(* every step is one of these shapes (unknown_tag_panics = false is used here) *)
+(* frames queued or with the writer, oldest first *)
+Definition jobs (st : hstate) : list wjob :=
+  (match h_writer st with Some w => [w] | None => [] end) ++ h_pend st.
+
+Definition is_flag_event (e : hevent) : bool :=
+  match e with EReadFatal | EReadRetry | ECtxDone | EExit | ECancel _ => true | _ => false end.
+
+(* every step is one of these shapes (unknown_tag_panics = false and
+   failed_arm_guarded = true are used here) *)
 Inductive step_shape (st : hstate) : hevent -> hstate -> list hout -> Prop :=
 | SS_idle e : step_shape st e st []
-| SS_req_err c mt wok e :
+| SS_req_err c mt e :
     h_running st = true -> allocate (h_out st) (h_sel st) = inr e ->
-    step_shape st (EReq c mt wok) st [ODeliverErr c e]
+    step_shape st (EReq c mt) st [ODeliverErr c e]
 | SS_req_ok c mt t :
     h_running st = true -> allocate (h_out st) (h_sel st) = inl t ->
-    step_shape st (EReq c mt true) (with_out st (<[t := c]> (h_out st)) t) [OFrame t c mt]
-| SS_req_wfail c mt t :
-    h_running st = true -> allocate (h_out st) (h_sel st) = inl t ->
-    step_shape st (EReq c mt false) (with_out st (delete t (<[t := c]> (h_out st))) t) [ODeliverErr c EWrite]
+    step_shape st (EReq c mt)
+      (with_data st (<[t := c]> (h_out st)) t (h_pend st ++ [{| w_call := c; w_tag := t; w_mt := mt |}]) (h_writer st)) []
+| SS_hand w rest :
+    h_running st = true -> h_pend st = w :: rest -> h_writer st = None ->
+    step_shape st EHand (with_data st (h_out st) (h_sel st) rest (Some w)) []
+| SS_wrote w :
+    h_writer st = Some w ->
+    step_shape st EWrote (with_data st (h_out st) (h_sel st) (h_pend st) None) [OFrame (w_tag w) (w_call w) (w_mt w)]
+| SS_wfail_del w :
+    h_running st = true -> h_writer st = Some w -> h_out st !! w_tag w = Some (w_call w) ->
+    step_shape st EWriteFailed (with_data st (delete (w_tag w) (h_out st)) (h_sel st) (h_pend st) None)
+      [ODeliverErr (w_call w) EWrite]
+| SS_wfail_keep w :
+    h_running st = true -> h_writer st = Some w -> h_out st !! w_tag w <> Some (w_call w) ->
+    step_shape st EWriteFailed (with_data st (h_out st) (h_sel st) (h_pend st) None)
+      [ODeliverErr (w_call w) EWrite]
+| SS_wfail_drop w :
+    h_running st = false -> h_writer st = Some w ->
+    step_shape st EWriteFailed (with_data st (h_out st) (h_sel st) (h_pend st) None) []
 | SS_resp t r c :
     h_running st = true -> h_out st !! t = Some c ->
-    step_shape st (EResp t r) (with_out st (delete t (h_out st)) (h_sel st)) [ODeliver c r]
+    step_shape st (EResp t r) (with_data st (delete t (h_out st)) (h_sel st) (h_pend st) (h_writer st)) [ODeliver c r]
 | SS_flags e st' :
-    h_out st' = h_out st -> h_sel st' = h_sel st -> h_panicked st' = h_panicked st ->
+    h_out st' = h_out st -> h_sel st' = h_sel st -> h_pend st' = h_pend st -> h_writer st' = h_writer st ->
+    h_panicked st' = h_panicked st ->
     (h_closed st = true -> h_closed st' = true) ->
     (h_shut st = true -> h_shut st' = true) -> (h_ctx st = true -> h_ctx st' = true) ->
-    (forall t r, e <> EResp t r) -> (forall c mt w, e <> EReq c mt w) ->
+    is_flag_event e = true ->
     step_shape st e st' (match e with EExit => if exit_enabled st then [OClosed] else [] | _ => [] end).
+
+Lemma with_flags_shape : forall st e a b c,
+  is_flag_event e = true ->
+  (h_closed st = true -> c = true) -> (h_shut st = true -> a = true) -> (h_ctx st = true -> b = true) ->
+  step_shape st e (with_flags st a b c (h_panicked st))
+    (match e with EExit => if exit_enabled st then [OClosed] else [] | _ => [] end).
+Proof. intros. apply SS_flags; cbn; auto. Qed.
+
+Lemma same_state_flags : forall st e, is_flag_event e = true ->
+  step_shape st e st (match e with EExit => if exit_enabled st then [OClosed] else [] | _ => [] end).
+Proof. intros. apply SS_flags; auto. Qed.
 
 Lemma hstep_shape : forall st e, step_shape st e (fst (hstep st e)) (snd (hstep st e)).
 Proof.
-  intros st e. destruct e as [c mt wok|t r| | | | |c]; cbn [hstep].
-  - destruct (h_running st) eqn:Hr; [|apply SS_idle].
+  intros st e. destruct e as [c mt| | | |t r| | | | |c]; cbn [hstep].
+  - (* EReq *)
+    destruct (h_running st) eqn:Hr; [|apply SS_idle].
     destruct (allocate (h_out st) (h_sel st)) as [t|er] eqn:Hal; cbn [fst snd].
-    + destruct wok; cbn [fst snd]; [apply SS_req_ok | apply SS_req_wfail]; assumption.
+    + apply SS_req_ok; assumption.
     + apply SS_req_err; assumption.
-  - destruct (h_running st) eqn:Hr; [|apply SS_idle].
+  - (* EHand *)
+    destruct (h_running st) eqn:Hr; [|apply SS_idle].
+    destruct (h_pend st) as [|w rest] eqn:Hp; [apply SS_idle|].
+    destruct (h_writer st) eqn:Hw; cbn [fst snd]; [apply SS_idle | apply SS_hand; assumption].
+  - (* EWrote *)
+    destruct (h_writer st) as [w|] eqn:Hw; cbn [fst snd]; [apply SS_wrote; assumption | apply SS_idle].
+  - (* EWriteFailed *)
+    destruct (h_writer st) as [w|] eqn:Hw; cbn [fst snd]; [|apply SS_idle].
+    destruct (h_running st) eqn:Hr; cbn [fst snd]; [|apply (SS_wfail_drop st w); assumption].
+    destruct src_owner_queues_writes as [_ Hg]. rewrite Hg.
+    destruct (h_out st !! w_tag w) as [c|] eqn:Hl.
+    + destruct (c =? w_call w) eqn:Ec; cbn [negb].
+      * apply (SS_wfail_del st w); try assumption. rewrite Hl. f_equal. lia.
+      * apply (SS_wfail_keep st w); try assumption. rewrite Hl. intros Heq. inversion Heq. lia.
+    + apply (SS_wfail_keep st w); try assumption. rewrite Hl. discriminate.
+  - (* EResp *)
+    destruct (h_running st) eqn:Hr; [|apply SS_idle].
     destruct (h_out st !! t) as [c|] eqn:Hl; cbn [fst snd].
     + apply SS_resp; assumption.
     + rewrite src_unknown_tag_dropped. apply SS_idle.
-  - cbn [fst snd]. apply (SS_flags st EReadFatal); cbn; auto; discriminate.
+  - cbn [fst snd]. apply (with_flags_shape st EReadFatal); auto.
   - destruct (reader_retry_stops_when_done && (h_ctx st || h_closed st)); cbn [fst snd];
-      apply (SS_flags st EReadRetry); cbn; auto; discriminate.
-  - cbn [fst snd]. apply (SS_flags st ECtxDone); cbn; auto; discriminate.
+      [apply (with_flags_shape st EReadRetry); auto | apply (same_state_flags st EReadRetry); reflexivity].
+  - cbn [fst snd]. apply (with_flags_shape st ECtxDone); auto.
   - fold (exit_enabled st). destruct (exit_enabled st) eqn:He; cbn [fst snd].
-    + pose proof (SS_flags st EExit
-        {| h_out := h_out st; h_sel := h_sel st; h_shut := h_shut st; h_ctx := h_ctx st;
-           h_closed := true; h_panicked := h_panicked st |}) as H.
-      rewrite He in H. apply H; cbn; auto; discriminate.
-    + pose proof (SS_flags st EExit st) as H. rewrite He in H. apply H; auto; discriminate.
-  - cbn [fst snd]. apply (SS_flags st (ECancel c)); auto; discriminate.
+    + pose proof (with_flags_shape st EExit (h_shut st) (h_ctx st) true eq_refl) as H.
+      rewrite He in H. apply H; auto.
+    + pose proof (same_state_flags st EExit eq_refl) as H. rewrite He in H. exact H.
+  - cbn [fst snd]. apply (same_state_flags st (ECancel c)); reflexivity.
 Qed.
-
-(* ---------------------------------------------------------------- C12: no panic *)
 
 Ltac step_cases st e :=
   let Hs := fresh "Hs" in
@@ -114,19 +164,27 @@ Ltac step_cases st e :=
   remember (fst (hstep st e)) as st' eqn:Hst'; remember (snd (hstep st e)) as o eqn:Ho;
   destruct Hs.
 
+Tactic Notation "simp_st" :=
+  cbn [h_out with_data with_flags h_sel h_pend h_writer h_shut h_ctx h_closed h_panicked fst snd jobs app].
+Tactic Notation "simp_st" "in" hyp(H) :=
+  cbn [h_out with_data with_flags h_sel h_pend h_writer h_shut h_ctx h_closed h_panicked fst snd jobs app] in H.
+
+Lemma flag_event_outputs : forall st e, is_flag_event e = true ->
+  forall o, In o (match e with EExit => if exit_enabled st then [OClosed] else [] | _ => [] end) -> o = OClosed.
+Proof.
+  intros st e He o Hin. destruct e; try (destruct Hin; fail).
+  destruct (exit_enabled st); [destruct Hin as [<-|[]]; reflexivity | destruct Hin].
+Qed.
+
+(* ---------------------------------------------------------------- C12: no panic *)
 
 Lemma hstep_no_panic : forall st e,
   h_panicked st = false ->
   h_panicked (fst (hstep st e)) = false /\ ~ In OPanic (snd (hstep st e)).
 Proof.
-  intros st e Hp. step_cases st e.
-  - split; [assumption | intros []].
-  - split; [assumption | intros [H'|[]]; discriminate].
-  - split; [assumption | intros [H'|[]]; discriminate].
-  - split; [assumption | intros [H'|[]]; discriminate].
-  - split; [assumption | intros [H'|[]]; discriminate].
-  - split; [congruence|].
-    destruct e; try (intros []). destruct (exit_enabled st); [intros [H'|[]]; discriminate | intros []].
+  intros st e Hp. step_cases st e; simp_st;
+    try (split; [assumption | intros Hin; repeat (destruct Hin as [Hin|Hin]; [discriminate|]); destruct Hin]).
+  split; [congruence|]. intros Hin. apply (flag_event_outputs st e H7) in Hin. discriminate.
 Qed.
 
 Lemma run_no_panic : forall evs,
@@ -159,9 +217,31 @@ Proof.
   destruct w; cbn [app awaiting_from]; apply IH.
 Qed.
 
-(* the tags awaiting a reply are keys of [outstanding], distinct, and valid tags *)
+Lemma flag_event_wire : forall st e, is_flag_event e = true ->
+  (match e with EResp t rp => [WReply t rp] | _ => [] end)
+  ++ flat_map (fun o => match o with OFrame t c _ => [WFrame t c] | _ => [] end)
+       (match e with EExit => if exit_enabled st then [OClosed] else [] | _ => [] end) = [].
+Proof. intros st e He. destruct e; try discriminate; try reflexivity. destruct (exit_enabled st); reflexivity. Qed.
+
+(* "the peer answers only requests it has received and not yet answered":
+   every reply event carries a tag that awaits a reply on the wire at that moment *)
+Fixpoint honest_from (st : hstate) (acc : list tag) (evs : list hevent) : Prop :=
+  match evs with
+  | [] => True
+  | e :: r => (match e with EResp t _ => In t acc | _ => True end) /\
+              honest_from (fst (hstep st e)) (awaiting_from acc (wire_step st e)) r
+  end.
+Definition honest_peer (evs : list hevent) : Prop := honest_from h_init [] evs.
+
+Definition jobtags (st : hstate) : list N := map w_tag (jobs st).
+
+(* the tags awaiting a reply on the wire and the tags of frames not yet written
+   are keys of [outstanding], all distinct, valid tags, and each queued frame's
+   tag still belongs to its own call *)
 Definition tags_inv (st : hstate) (acc : list tag) : Prop :=
-  NoDup acc /\ (forall t, In t acc -> is_Some (h_out st !! t)) /\
+  NoDup (acc ++ jobtags st) /\
+  (forall t, In t acc -> is_Some (h_out st !! t)) /\
+  (forall w, In w (jobs st) -> h_out st !! w_tag w = Some (w_call w)) /\
   (forall t, is_Some (h_out st !! t) -> t < 65535).
 
 Lemma NoDup_filter_coq : forall (f : N -> bool) l, NoDup l -> NoDup (filter f l).
@@ -171,74 +251,184 @@ Proof.
   intros Hin. apply filter_In in Hin as [Hin _]. contradiction.
 Qed.
 
+Lemma NoDup_app_filter_l : forall (f : N -> bool) a b, NoDup (a ++ b) -> NoDup (filter f a ++ b).
+Proof.
+  induction a as [|x a IH]; intros b H; cbn [filter app] in *; [assumption|].
+  inversion H as [|? ? Hx Hr]; subst. destruct (f x); [|auto].
+  cbn [app]. constructor; [|auto]. intros Hin. apply Hx. apply in_app_or in Hin as [Hin|Hin]; apply in_or_app; [left|right; assumption].
+  apply filter_In in Hin as [Hin _]. assumption.
+Qed.
+
+Lemma NoDup_app_l_N : forall (a b : list N), NoDup (a ++ b) -> NoDup a.
+Proof.
+  induction a as [|x a IH]; cbn; intros b H; [constructor|].
+  inversion H as [|? ? Hx Hr]; subst. constructor; [|eauto].
+  intros Hin. apply Hx. apply in_or_app. auto.
+Qed.
+
+Lemma NoDup_snoc_N : forall (l : list N) x, NoDup l -> ~ In x l -> NoDup (l ++ [x]).
+Proof.
+  intros l x Hl Hx. apply NoDup_rev in Hl. rewrite <- (rev_involutive (l ++ [x])).
+  apply NoDup_rev. rewrite rev_app_distr. cbn. constructor; [|assumption].
+  intros Hin. apply in_rev in Hin. contradiction.
+Qed.
+
+Lemma NoDup_app_disjoint : forall (a b : list N) x, NoDup (a ++ b) -> In x a -> In x b -> False.
+Proof.
+  induction a as [|y a IH]; intros b x H Ha Hb; [destruct Ha|].
+  cbn [app] in H. inversion H as [|? ? Hy Hr]; subst. destruct Ha as [->|Ha].
+  - apply Hy. apply in_or_app. right. assumption.
+  - eapply IH; eassumption.
+Qed.
+
 Lemma tags_inv_filter : forall st acc f, tags_inv st acc -> tags_inv st (filter f acc).
 Proof.
-  intros st acc f (Hnd & Hkeys & Hlt). split; [apply NoDup_filter_coq; assumption|]. split; [|assumption].
+  intros st acc f (Hnd & Hkeys & Hjobs & Hlt). split; [apply NoDup_app_filter_l; assumption|]. split; [|split; assumption].
   intros x Hx. apply filter_In in Hx as [Hx _]. auto.
 Qed.
 
-Ltac simp_model := unfold tags_inv; cbn [awaiting_from app flat_map h_out with_out h_sel h_shut h_ctx h_closed h_panicked fst snd].
+Ltac simp_model :=
+  unfold tags_inv, jobtags;
+  cbn [awaiting_from app flat_map map h_out with_data with_flags h_sel h_pend h_writer h_shut h_ctx h_closed h_panicked fst snd jobs];
+  unfold jobs;
+  cbn [awaiting_from app flat_map map h_out with_data with_flags h_sel h_pend h_writer h_shut h_ctx h_closed h_panicked fst snd].
 
 Lemma tags_inv_step : forall st e acc,
-  tags_inv st acc -> tags_inv (fst (hstep st e)) (awaiting_from acc (wire_step st e)).
+  tags_inv st acc -> (forall t r, e = EResp t r -> In t acc) ->
+  tags_inv (fst (hstep st e)) (awaiting_from acc (wire_step st e)).
 Proof.
-  intros st e acc Hinv. unfold wire_step. step_cases st e.
-  - (* idle *) destruct e; simp_model; try assumption. apply tags_inv_filter; assumption.
-  - (* allocation failed *) simp_model. assumption.
-  - (* frame written *)
-    simp_model. destruct Hinv as (Hnd & Hkeys & Hlt).
+  intros st e acc Hinv Hhon. unfold wire_step. step_cases st e.
+  - (* idle *) destruct e; cbn [awaiting_from app flat_map]; try assumption. apply tags_inv_filter; assumption.
+  - (* allocation failed *) cbn [awaiting_from app flat_map]. assumption.
+  - (* request queued *)
+    destruct Hinv as (Hnd & Hkeys & Hjobs & Hlt). revert Hnd Hjobs. simp_model. intros Hnd Hjobs.
     match goal with H : allocate _ _ = inl _ |- _ => apply allocate_sound in H as (Hfree & Hnt & Hlt') end.
-    split; [|split].
-    + constructor; [|assumption]. intros Hin. apply Hkeys in Hin. rewrite Hfree in Hin. destruct Hin; discriminate.
-    + intros x [<-|Hx]; [rewrite lookup_insert; eauto|].
-      destruct (N.eq_dec t x) as [->|Hne]; [rewrite lookup_insert; eauto|].
+    assert (Hfresh : ~ In t (acc ++ map w_tag ((match h_writer st with Some w => [w] | None => [] end) ++ h_pend st))).
+    { intros Hin. apply in_app_or in Hin as [Hin|Hin].
+      - apply Hkeys in Hin. rewrite Hfree in Hin. destruct Hin; discriminate.
+      - apply in_map_iff in Hin as (w & <- & Hw). rewrite (Hjobs w Hw) in Hfree. discriminate. }
+    split; [|split; [|split]].
+    + rewrite app_assoc, map_app, app_assoc. cbn [map].
+      apply NoDup_snoc_N; [exact Hnd | exact Hfresh].
+    + intros x Hx. destruct (N.eq_dec t x) as [->|Hne]; [rewrite lookup_insert; eauto|].
       rewrite lookup_insert_ne by assumption. auto.
+    + intros w Hw. rewrite app_assoc in Hw. apply in_app_or in Hw as [Hw|[<-|[]]].
+      * assert (t <> w_tag w).
+        { intros ->. apply Hfresh. apply in_or_app. right. apply in_map. exact Hw. }
+        rewrite lookup_insert_ne by assumption. auto.
+      * cbn. rewrite lookup_insert. reflexivity.
     + intros x Hx. destruct (N.eq_dec t x) as [<-|Hne]; [assumption|].
       rewrite lookup_insert_ne in Hx by assumption. auto.
-  - (* write failed *)
-    simp_model. destruct Hinv as (Hnd & Hkeys & Hlt).
-    match goal with H : allocate _ _ = inl _ |- _ => apply allocate_sound in H as (Hfree & Hnt & Hlt') end.
-    split; [assumption|split].
-    + intros x Hx. pose proof (Hkeys x Hx) as Hs.
-      assert (t <> x) by (intros ->; rewrite Hfree in Hs; destruct Hs; discriminate).
-      rewrite lookup_delete_ne, lookup_insert_ne by assumption. assumption.
-    + intros x Hx. destruct (N.eq_dec t x) as [<-|Hne]; [assumption|].
-      rewrite lookup_delete_ne, lookup_insert_ne in Hx by assumption. auto.
-  - (* reply delivered *)
-    simp_model. destruct Hinv as (Hnd & Hkeys & Hlt).
-    split; [apply NoDup_filter_coq; assumption|split].
-    + intros x Hx. apply filter_In in Hx as [Hx Hne].
-      rewrite lookup_delete_ne by lia. auto.
+  - (* hand-over: the same frames *)
+    destruct Hinv as (Hnd & Hkeys & Hjobs & Hlt). revert Hnd Hjobs. simp_model. rewrite H0, H1. cbn [app]. auto.
+  - (* frame written *)
+    destruct Hinv as (Hnd & Hkeys & Hjobs & Hlt). revert Hnd Hjobs. simp_model. rewrite H. cbn [app map]. intros Hnd Hjobs.
+    split; [|split; [|split]].
+    + apply NoDup_remove in Hnd as [Hnd Hnin]. constructor; assumption.
+    + intros x [<-|Hx]; [rewrite (Hjobs w (or_introl eq_refl)); eauto | auto].
+    + intros w' Hw'. apply Hjobs. right. assumption.
+    + assumption.
+  - (* write failed, tag released *)
+    destruct Hinv as (Hnd & Hkeys & Hjobs & Hlt). revert Hnd Hjobs. simp_model. rewrite H0. cbn [app map]. intros Hnd Hjobs.
+    pose proof (NoDup_remove _ _ _ Hnd) as [Hnd' Hnin].
+    split; [assumption|split; [|split]].
+    + intros x Hx. assert (w_tag w <> x) by (intros <-; apply Hnin; apply in_or_app; auto).
+      rewrite lookup_delete_ne by assumption. auto.
+    + intros w' Hw'. assert (w_tag w <> w_tag w').
+      { intros Heq. apply Hnin. apply in_or_app. right. rewrite Heq. apply in_map. assumption. }
+      rewrite lookup_delete_ne by assumption. apply Hjobs. right. assumption.
+    + intros x Hx. destruct (N.eq_dec (w_tag w) x) as [<-|Hne]; [rewrite lookup_delete in Hx; destruct Hx; discriminate|].
+      rewrite lookup_delete_ne in Hx by assumption. auto.
+  - (* write failed, tag not ours any more *)
+    destruct Hinv as (Hnd & Hkeys & Hjobs & Hlt). revert Hnd Hjobs. simp_model. rewrite H0. cbn [app map]. intros Hnd Hjobs.
+    pose proof (NoDup_remove _ _ _ Hnd) as [Hnd' Hnin].
+    split; [assumption|split; [assumption|split; [|assumption]]].
+    intros w' Hw'. apply Hjobs. right. assumption.
+  - (* write failed after the loop returned *)
+    destruct Hinv as (Hnd & Hkeys & Hjobs & Hlt). revert Hnd Hjobs. simp_model. rewrite H0. cbn [app map]. intros Hnd Hjobs.
+    pose proof (NoDup_remove _ _ _ Hnd) as [Hnd' Hnin].
+    split; [assumption|split; [assumption|split; [|assumption]]].
+    intros w' Hw'. apply Hjobs. right. assumption.
+  - (* reply delivered: by honesty its tag is on the wire, hence not a queued frame's *)
+    pose proof (Hhon t r eq_refl) as Hin.
+    destruct Hinv as (Hnd & Hkeys & Hjobs & Hlt). revert Hnd Hjobs. simp_model. intros Hnd Hjobs.
+    split; [apply NoDup_app_filter_l; assumption|split; [|split]].
+    + intros x Hx. apply filter_In in Hx as [Hx Hne]. rewrite lookup_delete_ne by lia. auto.
+    + intros w Hw. assert (t <> w_tag w).
+      { intros ->. eapply NoDup_app_disjoint; [exact Hnd | exact Hin | apply in_map; exact Hw]. }
+      rewrite lookup_delete_ne by assumption. auto.
     + intros x Hx. destruct (N.eq_dec t x) as [<-|Hne]; [rewrite lookup_delete in Hx; destruct Hx; discriminate|].
       rewrite lookup_delete_ne in Hx by assumption. auto.
   - (* flags only *)
-    assert (Hnf : flat_map (fun o => match o with OFrame t c _ => [WFrame t c] | _ => [] end)
-                   (match e with EExit => if exit_enabled st then [OClosed] else [] | _ => [] end) = []).
-    { destruct e; try reflexivity. destruct (exit_enabled st); reflexivity. }
-    rewrite Hnf.
-    assert (Hnr : match e with EResp t rp => [WReply t rp] | _ => [] end = []).
-    { destruct e; try reflexivity. exfalso. eapply H5; reflexivity. }
-    rewrite Hnr. simp_model.
-    destruct Hinv as (Hnd & Hkeys & Hlt). unfold tags_inv. rewrite H. auto.
+    rewrite (flag_event_wire st e H7). cbn [awaiting_from].
+    destruct Hinv as (Hnd & Hkeys & Hjobs & Hlt). unfold tags_inv, jobtags, jobs. rewrite H, H1, H2. auto.
 Qed.
 
 Lemma tags_inv_run : forall evs st acc,
-  tags_inv st acc ->
-  let acc' := awaiting_from acc (hwire st evs) in NoDup acc' /\ ~ In NOTAG acc'.
+  tags_inv st acc -> honest_from st acc evs ->
+  NoDup (awaiting_from acc (hwire st evs)).
 Proof.
-  induction evs as [|e evs IH]; intros st acc Hinv.
-  - cbn. destruct Hinv as (Hnd & Hkeys & Hlt). split; [assumption|].
-    intros Hin. apply Hkeys, Hlt in Hin. unfold NOTAG in Hin. lia.
-  - rewrite hwire_cons. cbv zeta. rewrite awaiting_from_app.
-    apply IH. apply tags_inv_step. assumption.
+  induction evs as [|e evs IH]; intros st acc Hinv Hhon.
+  - cbn. destruct Hinv as (Hnd & _). apply NoDup_app_l_N in Hnd. assumption.
+  - rewrite hwire_cons, awaiting_from_app. destruct Hhon as [He Hrest].
+    apply IH; [|assumption]. apply tags_inv_step; [assumption|].
+    intros t r ->. exact He.
 Qed.
 
 Lemma tags_inv_init : tags_inv h_init [].
 Proof.
-  split; [constructor|]. split; [intros t []|].
+  split; [constructor|]. split; [intros t []|]. split; [intros w []|].
   intros t Ht. cbn in Ht. rewrite lookup_empty in Ht. destruct Ht; discriminate.
 Qed.
 
+(* C05_distinct, part 1 *)
 Theorem awaiting_distinct : forall evs,
-  NoDup (awaiting (wire_of evs)) /\ ~ In NOTAG (awaiting (wire_of evs)).
-Proof. intros evs. exact (tags_inv_run evs h_init [] tags_inv_init). Qed.
+  honest_peer evs -> NoDup (awaiting (wire_of evs)).
+Proof. intros evs H. exact (tags_inv_run evs h_init [] tags_inv_init H). Qed.
+
+(* NOTAG is never on the wire, whatever the peer does *)
+Definition lt_inv (st : hstate) (acc : list tag) : Prop :=
+  (forall t, In t acc -> t < 65535) /\ (forall w, In w (jobs st) -> w_tag w < 65535).
+
+Lemma lt_inv_step : forall st e acc,
+  lt_inv st acc -> lt_inv (fst (hstep st e)) (awaiting_from acc (wire_step st e)).
+Proof.
+  intros st e acc [Hacc Hjobs]. unfold wire_step. step_cases st e; unfold lt_inv; simp_st;
+    cbn [awaiting_from flat_map app].
+  - destruct e; cbn [awaiting_from app]; split; try assumption.
+    intros x Hx. apply filter_In in Hx as [Hx _]. auto.
+  - split; assumption.
+  - match goal with H : allocate _ _ = inl _ |- _ => apply allocate_sound in H as (_ & _ & Hlt') end.
+    split; [assumption|]. intros w Hw. revert Hjobs. unfold jobs. intros Hjobs.
+    rewrite app_assoc in Hw. apply in_app_or in Hw as [Hw|[<-|[]]]; [auto | assumption].
+  - revert Hjobs. unfold jobs. rewrite H0, H1. cbn [app]. auto.
+  - revert Hjobs. unfold jobs. rewrite H. cbn [app]. intros Hjobs. split.
+    + intros x [<-|Hx]; [apply Hjobs; left; reflexivity | auto].
+    + intros w' Hw'. apply Hjobs. right. assumption.
+  - revert Hjobs. unfold jobs. rewrite H0. cbn [app]. intros Hjobs. split; [assumption|].
+    intros w' Hw'. apply Hjobs. right. assumption.
+  - revert Hjobs. unfold jobs. rewrite H0. cbn [app]. intros Hjobs. split; [assumption|].
+    intros w' Hw'. apply Hjobs. right. assumption.
+  - revert Hjobs. unfold jobs. rewrite H0. cbn [app]. intros Hjobs. split; [assumption|].
+    intros w' Hw'. apply Hjobs. right. assumption.
+  - split; [|assumption]. intros x Hx. apply filter_In in Hx as [Hx _]. auto.
+  - rewrite (flag_event_wire st e H7). cbn [awaiting_from]. split; [assumption|].
+    unfold jobs. rewrite H1, H2. assumption.
+Qed.
+
+Lemma lt_inv_run : forall evs st acc,
+  lt_inv st acc -> forall t, In t (awaiting_from acc (hwire st evs)) -> t < 65535.
+Proof.
+  induction evs as [|e evs IH]; intros st acc Hinv t Hin.
+  - cbn in Hin. destruct Hinv as [Hacc _]. auto.
+  - rewrite hwire_cons, awaiting_from_app in Hin.
+    eapply IH; [|exact Hin]. apply lt_inv_step. assumption.
+Qed.
+
+(* C05_distinct, part 2 *)
+Theorem never_notag : forall evs, ~ In NOTAG (awaiting (wire_of evs)).
+Proof.
+  intros evs Hin.
+  assert (Hinit : lt_inv h_init []) by (split; [intros t []|intros w []]).
+  pose proof (lt_inv_run evs h_init [] Hinit NOTAG Hin) as Hlt. unfold NOTAG in Hlt. lia.
+Qed.
